@@ -506,6 +506,12 @@ def check_setop(case):
     if tail is None:
         out.append((mksig("wellformed", cls, "setop_keyword_missing"), s1))
         return out
+    # clauses of an operand must stay inside the operand: at depth 0 nothing but the operand's SELECT .. may precede the operator
+    words = depth0_words(lex.lex(s1, cls))
+    first = next(i for i, w in enumerate(words) if w in ("UNION", "INTERSECT", "EXCEPT", "MINUS"))
+    stray = [w for w in words[:first] if w in ("ORDER", "LIMIT", "OFFSET", "FETCH")]
+    if stray:
+        out.append((mksig("wellformed", cls, "operand_clause_outside_brackets"), "%s: the first operand's %s stands unbracketed before the operator, where the grammar ends the operand: %r" % (cls, "/".join(stray), s1)))
     # the last operand has no clauses of its own, so every ORDER / LIMIT / OFFSET / FETCH after it belongs to the set operation
     want = []
     L, O = "limit" in case["tail"], "offset" in case["tail"]
